@@ -67,6 +67,7 @@ type PathResult struct {
 	Merges        int
 	MergePaths    int
 	MergeAborts   int
+	MergeAbortWhy map[string]int
 	SolverUnknown int
 	GatesUsed     []string
 }
@@ -99,6 +100,7 @@ type Explorer struct {
 	noMerge           bool
 	pendingInfeasible []pendingCheck
 	ivs               *smt.Intervals
+	curLabel          string
 	ivInputs          int
 	obs               map[string]value
 	gatesUsed         map[string]bool
@@ -130,6 +132,15 @@ func (e *Explorer) reset(item WorkItem) {
 }
 
 func (e *Explorer) addModel(m smt.Model) {
+	// only assignments that satisfy the whole path condition may serve as witnesses
+	// for later branch decisions (a model completed from a sliced query without a
+	// live model to fill in the other variables may violate conjuncts outside the slice)
+	chk := smt.NewEvaluator(m)
+	for _, p := range e.PC {
+		if !chk.Bool(p) || chk.Failed {
+			return
+		}
+	}
 	if len(e.Models) >= 6 {
 		e.Models = e.Models[1:]
 		e.evals = e.evals[1:]
@@ -244,9 +255,42 @@ func (e *Explorer) check(target *smt.Term, wantModel bool) (smt.Result, smt.Mode
 	q := smt.BuildQuery(as)
 	var last smt.Result
 	if q.HasFP {
+		// the same abstraction on top of the wrap-free integer translation (z3)
+		if iq := smt.BuildQueryInt(as, e.intervals()); iq != nil && iq.Abstracted {
+			t0 := time.Now()
+			r, m, err := e.S.CheckT(smt.Z3New, iq, true, e.S.Timeout)
+			if e.QueryLog != nil {
+				fmt.Fprintf(e.QueryLog, "z3-new(int,fp-abstract) %s %v vars=%d bytes=%d err=%v label=%q\n", r, time.Since(t0), len(iq.Vars), len(iq.Text), err, e.curLabel)
+			}
+			if err == nil && r == smt.Unsat {
+				return smt.Unsat, nil
+			}
+			if err == nil && r == smt.Sat && m != nil {
+				// the abstraction may have invented float results; but if the integer
+				// assignment satisfies the real assertions under concrete evaluation it
+				// is a genuine model
+				full := e.completeModel(m)
+				ev := smt.NewEvaluator(full)
+				good := true
+				for _, a := range as {
+					if !ev.Bool(a) {
+						good = false
+						break
+					}
+				}
+				if good && !ev.Failed {
+					if e.QueryLog != nil {
+						fmt.Fprintf(e.QueryLog, "abstract model validated concretely\n")
+					}
+					return smt.Sat, full
+				}
+			}
+		}
+	}
+	if q.HasFP {
 		// first try with the float sub-computations abstracted to uninterpreted
 		// functions of their integer inputs: unsat there is unsat of the real query
-		aq := smt.BuildQueryAbstractFP(as)
+		aq := smt.BuildQueryAbstractFP(as, e.intervals())
 		be := smt.CVC5Int
 		if aq.HasFP {
 			be = smt.CVC5
@@ -254,7 +298,7 @@ func (e *Explorer) check(target *smt.Term, wantModel bool) (smt.Result, smt.Mode
 		t0 := time.Now()
 		r, _, err := e.S.Check(be, aq, false)
 		if e.QueryLog != nil {
-			fmt.Fprintf(e.QueryLog, "%s(fp-abstract) %s %v vars=%d bytes=%d err=%v\n", be, r, time.Since(t0), len(aq.Vars), len(aq.Text), err)
+			fmt.Fprintf(e.QueryLog, "%s(fp-abstract) %s %v vars=%d bytes=%d err=%v label=%q\n", be, r, time.Since(t0), len(aq.Vars), len(aq.Text), err, e.curLabel)
 		}
 		if err == nil && r == smt.Unsat {
 			return smt.Unsat, nil
@@ -270,6 +314,9 @@ func (e *Explorer) check(target *smt.Term, wantModel bool) (smt.Result, smt.Mode
 	stages := []stage{{bes[0], 4 * time.Second}, {bes[1], e.S.Timeout}, {bes[0], e.S.Timeout}}
 	if e.S.Timeout <= 4*time.Second {
 		stages = []stage{{bes[0], e.S.Timeout}, {bes[1], e.S.Timeout}}
+	}
+	if q.HasFP && e.S.Timeout > 10*time.Second {
+		stages = []stage{{bes[0], 10 * time.Second}, {bes[1], 10 * time.Second}}
 	}
 	if q.Nonlin && !q.HasFP {
 		stages = []stage{{smt.CVC5Int, time.Second}, {smt.CVC5IntOnce, e.S.Timeout}, {smt.Z3New, e.S.Timeout}}
@@ -354,6 +401,9 @@ func (e *Explorer) decide(c *smt.Term) bool {
 	if c.Op == smt.OBNot {
 		return !e.decide(c.A[0])
 	}
+	if v, known := e.intervals().Decide(c); known {
+		return v
+	}
 	e.res.Branches++
 	if e.Pos < len(e.Dec) {
 		d := e.Dec[e.Pos]
@@ -373,7 +423,12 @@ func (e *Explorer) decide(c *smt.Term) bool {
 	}
 	var mT, mF smt.Model
 	for i, ev := range e.evals {
-		if ev.Bool(c) {
+		b := ev.Bool(c)
+		if ev.Failed {
+			ev.Failed = false
+			continue
+		}
+		if b {
 			if mT == nil {
 				mT = e.Models[i]
 			}
@@ -413,6 +468,19 @@ func (e *Explorer) decide(c *smt.Term) bool {
 	case okF:
 		d = false
 	default:
+		if d := os.Getenv("GOSYM_DEBUG_DIR"); d != "" {
+			os.MkdirAll(d, 0755)
+			as := append(e.slice(c), c)
+			os.WriteFile(fmt.Sprintf("%s/infeasible_%d_bv.smt2", d, c.ID), []byte("(set-logic ALL)\n"+smt.BuildQuery(as).Text+"(check-sat)\n"), 0644)
+			if iq := smt.BuildQueryInt(as, e.intervals()); iq != nil {
+				os.WriteFile(fmt.Sprintf("%s/infeasible_%d_int.smt2", d, c.ID), []byte(iq.Text+"(check-sat)\n"), 0644)
+			}
+			if iq := smt.BuildQueryInt(e.PC, e.intervals()); iq != nil {
+				os.WriteFile(fmt.Sprintf("%s/infeasible_%d_pcint.smt2", d, c.ID), []byte(iq.Text+"(check-sat)\n(get-model)\n"), 0644)
+			}
+			pcq := smt.BuildQuery(e.PC)
+			os.WriteFile(fmt.Sprintf("%s/infeasible_%d_pc.smt2", d, c.ID), []byte("(set-logic ALL)\n"+pcq.Text+"(check-sat)\n"), 0644)
+		}
 		panic(engineAbort{"infeasible", "both sides of a branch are infeasible: " + c.String()})
 	}
 	v := uint64(0)
@@ -572,6 +640,8 @@ func (e *Explorer) assert(c *smt.Term, label string) {
 		panic(engineAbort{"abort-merge", "assert inside merged call"})
 	}
 	e.res.AssertsSeen[label]++
+	e.curLabel = label
+	defer func() { e.curLabel = "" }()
 	if c.IsTrue() {
 		e.res.AssertsProved[label]++
 		return
